@@ -245,7 +245,7 @@ example : ((run chain2 lateStart).execs.map (·.state), (run chain2 lateStart).t
 theorem reported_once (c : Cfg) (evs : List Event) (x : Nat) (e : Exec)
     (he : (run c evs).execs[x]? = some e) (hp : e.parent.isSome = true) :
     (isCompleted e.state = true → e.sent = 1) ∧ (isCompleted e.state = false → e.sent = 0) := by
-  obtain ⟨j1, j2⟩ := (allJ_reachable c evs).1 x e he
+  obtain ⟨j1, j2, _⟩ := (allJ_reachable c evs).1 x e he
   exact ⟨fun h => by rw [j2 h, hp]; rfl, j1⟩
 
 example : (((run chain3 (chain3Up ++ [.stop 1 .ERROR "m"])).execs.map (·.sent))) = [0, 1, 0] := by decide
@@ -253,7 +253,7 @@ example : (((run chain3 (chain3Up ++ [.stop 1 .ERROR "m"])).execs.map (·.sent))
 /-- a root execution (no parent task) never registers a result message -/
 theorem root_reports_nothing (c : Cfg) (evs : List Event) (x : Nat) (e : Exec)
     (he : (run c evs).execs[x]? = some e) (hp : e.parent = none) : e.sent = 0 := by
-  obtain ⟨j1, j2⟩ := (allJ_reachable c evs).1 x e he
+  obtain ⟨j1, j2, _⟩ := (allJ_reachable c evs).1 x e he
   cases hc : isCompleted e.state with
   | false => exact j1 hc
   | true => rw [j2 hc, hp]; rfl
